@@ -255,7 +255,7 @@ pub fn cmd_seq(args: &Args) -> i32 {
         let p = &profiles2[(r % profiles2.len() as u64) as usize];
         let h = hist::generate(history_seed(seed, &prop2, r), p);
         let root = util::scratch_for(w).join("seq");
-        let out = run_once(&h, &root, oracles, r < 48);
+        let out = run_once(&h, &root, oracles, r < 48 || oracles.c08);
         summarise(r, &h, &out, r < 3)
     });
     let done: Vec<RunSummary> = summaries.into_iter().flatten().collect();
@@ -359,7 +359,7 @@ pub fn cmd_seq(args: &Args) -> i32 {
         let class2 = class.clone();
         let prop4 = prop.clone();
         let pred = |cand: &History| {
-            let out = run_once(cand, &root, oracles, false);
+            let out = run_once(cand, &root, oracles, oracles.c08);
             out.violations
                 .iter()
                 .any(|x| x.property == prop4 && x.class == class2)
@@ -369,7 +369,7 @@ pub fn cmd_seq(args: &Args) -> i32 {
         } else {
             (h0.clone(), 0)
         };
-        let out = run_once(&hmin, &root, oracles, false);
+        let out = run_once(&hmin, &root, oracles, oracles.c08);
         let vmin = out
             .violations
             .iter()
